@@ -79,6 +79,8 @@ M=[
         );"""),
  ('R8 IndexSkipMap::cend() ends at the number of skipped ids', 'include/AIToolbox/Utils/IndexMap.hpp',
   """            auto cend() const { return const_iterator(items_.size(), ids_, items_); }""","""            auto cend() const { return const_iterator(items_.size() - (ids_.size() > items_.size() ? 1 : 0), ids_, items_); }"""),
+ ('R9 (indirect) Factored::match(pf, pf) never looks at the last key of the longer list', 'src/Factored/Utils/Core.cpp',
+  """        while (j < smallerK->size() && i < biggerK->size()) {""","""        while (j < smallerK->size() && i + 1 < biggerK->size()) {"""),
 ]
 unit = '--unit' in sys.argv
 sel = [a for a in sys.argv[1:] if a != '--unit']
